@@ -147,6 +147,25 @@ func genSpec(seed uint64, tier string, idx int) *Spec {
 		}
 	}
 	sp.ContDelayUs = [2]int{r.Range(800, 3000), r.Range(800, 3000)}
+	if fam == 3 {
+		// overrun: one or two sequence actions never answer within their (15-25 ms) timeout: the ENGINE ends the attempt
+		// and records its own timeout error (not permanent), retries while it may, then fails the action. The write of
+		// such an attempt (action still Running, last attempt complete WITH an error) is a crash point like every other.
+		sp.Kind = "overrun"
+		sp.ShortMs = map[string]int{}
+		var seqActs []string
+		for _, q := range sortedKeys(acts) {
+			if strings.HasPrefix(q, "s/") {
+				seqActs = append(seqActs, q)
+			}
+		}
+		for n := r.Range(1, 2); n > 0 && len(seqActs) > 0; n-- {
+			q := seqActs[r.Intn(len(seqActs))]
+			sp.Out[q] = int(engine.OOverrun)
+			sp.OutText[engine.PathHuman(q)] = "overrun"
+			sp.ShortMs[q] = r.Range(15, 25)
+		}
+	}
 	if fam == 4 && idx%16 == 4 {
 		// the recovery-only gap of BlockPreChecks: pre group Completed, the initial continuous run (always failing) still
 		// in flight at the crash; the continuous group ticks late, the sequences are quick
